@@ -400,8 +400,9 @@ func isRefHeap(sort string) bool { return strings.HasPrefix(sort, "(Array Ref ")
 // spec types: Go types or abstract sorts
 
 type SType struct {
-	T   types.Type
-	Abs string // abstract sort (declared with `sort`) or raw SMT sort
+	T    types.Type
+	Abs  string     // abstract sort (declared with `sort`) or raw SMT sort
+	Elem types.Type // for seq[T]: the Go element type of a raw (Array Int T)
 }
 
 func (s SType) String() string {
@@ -433,6 +434,13 @@ func (w *World) parseSType(src string) (SType, error) {
 	}
 	if strings.HasPrefix(src, "(") { // raw SMT sort
 		return SType{Abs: src}, nil
+	}
+	if strings.HasPrefix(src, "seq[") && strings.HasSuffix(src, "]") { // raw contents of a []T
+		et, err := w.parseGoType(src[4 : len(src)-1])
+		if err != nil {
+			return SType{}, err
+		}
+		return SType{Abs: "(Array Int " + w.sortOf(et) + ")", Elem: et}, nil
 	}
 	t, err := w.parseGoType(src)
 	if err != nil {
